@@ -1,7 +1,7 @@
 (* C20 — property theorems only.  Each is closed by `exact <lemma>` (or by computation for the closed
    examples) and followed by Print Assumptions; the check re-compiles this file on every run. *)
 From Coq Require Import List NArith Bool.
-From MW Require Import C20.FsTrace C20.Model C20.Proofs C20.ProofsBuffered.
+From MW Require Import C20.FsTrace C20.Model C20.Proofs C20.ProofsBuffered C20.ModelMove C20.ProofsMove C20.Gen_Sites C20.ProofsSites.
 Import ListNotations.
 
 (* If the recogniser accepts the trace t of a producer then, from ANY initial file system with nothing
@@ -131,3 +131,118 @@ Example C20_pending_tail_exists :
   snd (bw_ops 4 3%N [] [[1; 2; 3; 4]; [5; 6; 7; 8]]%N) = [].
 Proof. vm_compute. split; reflexivity. Qed.
 Print Assumptions C20_pending_tail_exists.
+
+(* ---- the temp file is MOVED into place (shutil.move = rename, or - across file systems - copy onto the published
+   name; ModelMove.v).  dirof p = directory holding the name p, dev d = file system of directory d; the kernel
+   answers rename(a, b) with EXDEV exactly when dev (dirof a) <> dev (dirof b).  producer_move = write the payload to
+   TEMP (any buffer capacity / chunking), flush, close, move(TEMP, FINAL); `pieces` = how the copy loop cuts the data.
+   (seeded/C20-5: mkstemp(dir = dirname(output) or None) + shutil.move.) *)
+
+(* on one file system the move IS the close-then-rename producer: every theorem about producer_ok applies *)
+Theorem C20_move_same_fs_is_rename : forall dirof dev B f h g chunks pieces,
+  dev (dirof TEMP) = dev (dirof FINAL) ->
+  producer_move dirof dev B f h g chunks pieces = producer_ok B f chunks.
+Proof. exact move_same_fs_is_rename. Qed.
+Print Assumptions C20_move_same_fs_is_rename.
+
+(* a temp file that is a sibling of the output (same directory, hence same file system) is never cross-device *)
+Theorem C20_sibling_never_cross_device : forall dirof dev a b,
+  dirof a = dirof b -> cross_device dirof dev a b = false.
+Proof. exact sibling_never_cross_device. Qed.
+Print Assumptions C20_sibling_never_cross_device.
+
+(* ... so the producer with a sibling temp file satisfies atomic publish wherever $TMPDIR lives: accepted by the
+   recogniser (C20_safe_publish_sound applies to every crash prefix) and it publishes exactly the payload *)
+Theorem C20_move_sibling_safe : forall dirof dev B f h g chunks pieces,
+  dirof TEMP = dirof FINAL ->
+  safe_publish FINAL (producer_move dirof dev B f h g chunks pieces) = true /\
+  forall s0, names s0 TEMP = None -> fds s0 f = None ->
+    content_at (run (producer_move dirof dev B f h g chunks pieces) s0) FINAL = Some (concat chunks).
+Proof. exact move_sibling_safe. Qed.
+Print Assumptions C20_move_sibling_safe.
+
+(* temp file on another file system: the copy fallback is outside the proved language, whatever the sizes *)
+Theorem C20_move_cross_rejected : forall dirof dev B f h g chunks pieces,
+  dev (dirof TEMP) <> dev (dirof FINAL) ->
+  safe_publish FINAL (producer_move dirof dev B f h g chunks pieces) = false.
+Proof. exact move_cross_rejected. Qed.
+Print Assumptions C20_move_cross_rejected.
+
+(* ... and it really violates atomic publish: for EVERY cut p1 ++ p2 of what the copy loop writes there is a crash
+   point at which a reader of FINAL finds exactly concat p1 (from any initial state in which TEMP is a fresh name and
+   the descriptors are free) *)
+Theorem C20_move_cross_exposes_prefix : forall dirof dev B f h g chunks p1 p2 s0,
+  dev (dirof TEMP) <> dev (dirof FINAL) ->
+  names s0 TEMP = None -> fds s0 f = None -> fds s0 g = None -> g <> h ->
+  exists k, content_at (run (firstn k (producer_move dirof dev B f h g chunks (p1 ++ p2))) s0) FINAL
+            = Some (concat p1).
+Proof. exact move_cross_exposes_prefix. Qed.
+Print Assumptions C20_move_cross_exposes_prefix.
+
+(* the invariant "absent / previous version / complete new version" is REFUTED for the copy fallback: with a non-empty
+   previous version and a non-empty payload some crash prefix shows a file that is none of the three (the empty file
+   right after open(FINAL, O_WRONLY|O_CREAT|O_TRUNC) - the 0-byte coll.zip of the replay) *)
+Theorem C20_move_cross_refuted : forall dirof dev B f h g chunks pieces s0 old,
+  dev (dirof TEMP) <> dev (dirof FINAL) ->
+  names s0 TEMP = None -> fds s0 f = None -> fds s0 g = None -> g <> h ->
+  content_at s0 FINAL = Some old -> old <> [] -> concat chunks <> [] ->
+  exists k, let v := content_at (run (firstn k (producer_move dirof dev B f h g chunks pieces)) s0) FINAL in
+            v <> None /\ v <> content_at s0 FINAL /\ v <> Some (concat chunks).
+Proof. exact move_cross_refuted. Qed.
+Print Assumptions C20_move_cross_refuted.
+
+(* a copy cut before its end exposes a STRICT prefix of the payload *)
+Theorem C20_move_cross_strict_prefix : forall dirof dev B f h g chunks p1 p2 s0,
+  dev (dirof TEMP) <> dev (dirof FINAL) ->
+  names s0 TEMP = None -> fds s0 f = None -> fds s0 g = None -> g <> h ->
+  concat (p1 ++ p2) = concat chunks -> concat p2 <> [] ->
+  exists k c, content_at (run (firstn k (producer_move dirof dev B f h g chunks (p1 ++ p2))) s0) FINAL = Some c /\
+              c <> concat chunks /\ exists tail, tail <> [] /\ c ++ tail = concat chunks.
+Proof. exact move_cross_strict_prefix. Qed.
+Print Assumptions C20_move_cross_strict_prefix.
+
+(* non-vacuity, both placements: TEMP in directory 1 on device 1 / FINAL in directory 0 on device 0: rejected, and the
+   reader sees old, old, ..., EMPTY, half, complete; everything in one directory: accepted, old ... old, complete *)
+Example C20_move_concrete :
+  let t_cross := producer_move (fun p => p) N.to_nat 4 3%N 3%N 4%N [[1; 2; 3]]%N [[1; 2]; [3]]%N in
+  let t_sibling := producer_move (fun _ => 7%N) N.to_nat 4 3%N 3%N 4%N [[1; 2; 3]]%N [[1; 2]; [3]]%N in
+  safe_publish FINAL t_cross = false /\
+  views t_cross fs_old = repeat (Some old_bytes) 6 ++ [Some []; Some [1; 2]%N] ++ repeat (Some [1; 2; 3]%N) 4 /\
+  safe_publish FINAL t_sibling = true /\
+  views t_sibling fs_old = repeat (Some old_bytes) 4 ++ [Some [1; 2; 3]%N].
+Proof. vm_compute. repeat split. Qed.
+Print Assumptions C20_move_concrete.
+
+(* ---- the mkstemp sites of /repo, re-read from the source on every run (vt/gen/c20_sites.py -> Gen_Sites.v):
+   site = (which directory mkstemp is given, which call publishes); site_trace = the trace of such a site for an output
+   path spelled `sh` (Bare file name | InDir d), current directory cwd, $TMPDIR tmpdir, file systems dev (ModelMove.v) *)
+
+(* sufficient condition, for EVERY spelling of the output, every $TMPDIR and every placement of the file systems:
+   publish by rename (a cross-device rename fails cleanly), or move a temp file made in dirname(output) *)
+Theorem C20_site_ok_sound : forall s, site_ok s = true ->
+  forall dev cwd tmpdir sh B f h g chunks pieces,
+    safe_publish FINAL (site_trace s dev cwd tmpdir sh B f h g chunks pieces) = true.
+Proof. exact site_ok_sound. Qed.
+Print Assumptions C20_site_ok_sound.
+
+(* ... and necessary: every other site (shutil.move of a temp file made with dir=None or dir=(dirname or None)) has an
+   environment - bare output name, $TMPDIR on another file system - in which the trace is rejected and a crash leaves
+   an EMPTY file under the final name *)
+Theorem C20_site_not_ok_refuted : forall s, site_ok s = false ->
+  exists dev cwd tmpdir sh, forall B f h g chunks pieces,
+    safe_publish FINAL (site_trace s dev cwd tmpdir sh B f h g chunks pieces) = false /\
+    forall s0, names s0 TEMP = None -> fds s0 f = None -> fds s0 g = None -> g <> h ->
+      exists k, content_at (run (firstn k (site_trace s dev cwd tmpdir sh B f h g chunks pieces)) s0) FINAL = Some [].
+Proof. exact site_not_ok_refuted. Qed.
+Print Assumptions C20_site_not_ok_refuted.
+
+(* the three sites as they are in /repo NOW (buildzip.py create_zip, make_zip; render.py main) are safe in every
+   environment; a source change to an unsafe site changes Gen_Sites.v and this proof no longer checks *)
+Theorem C20_repo_sites_safe : Forall (fun s => forall dev cwd tmpdir sh B f h g chunks pieces,
+    safe_publish FINAL (site_trace s dev cwd tmpdir sh B f h g chunks pieces) = true) sites.
+Proof. exact repo_sites_safe. Qed.
+Print Assumptions C20_repo_sites_safe.
+
+Theorem C20_repo_sites_found : length sites = 3.
+Proof. exact repo_sites_nonempty. Qed.
+Print Assumptions C20_repo_sites_found.
